@@ -15,6 +15,7 @@ EXPLANATION = ("The magnitude is a solver variable; log10/ln/exp/10**x are unint
                "'conversion term = hand-written standard definition' is decided by congruence + linear arithmetic on the arguments, and "
                "'conversion then reverse = identity' by the instantiated inverse axioms; temperature formulas are affine and decided exactly up to 1e-9.")
 ASSUMPTIONS = unitkit.UNITS_STUB_TEXT + [
+    "a division by a term that may be zero forks; on the zero side the library's own ZeroDivisionError propagates and is reported (no denominator is assumed away)",
     "log10, ln, exp, pow are uninterpreted; only inverse/positivity ground axioms are used (true values of the functions are outside the claim)",
     "linear -> logarithmic conversions assume x > 0; level subtraction assumes a > b",
     "temperatures are claimed at or above absolute zero (the property's 'physically meaningful range')",
